@@ -33,8 +33,8 @@ def _worker(job):
                     fobj = c.function()[0]
                 except Exception:
                     continue
-                if c.case is None:
-                    reg.contracts[fobj] = c
+                if c.case is None or c.kwargs:
+                    reg.contracts.setdefault(fobj, []).append(c)
         c = api.CONTRACTS[key]
         if c.assumed:
             res = {'contract': key, 'target': c.target, 'status': 'assumed', 'obligations': [], 'notes': [c.trusted_note or ''],
